@@ -432,7 +432,8 @@ def steps_and_order(ctx, rule, n, spec):
     for nn in F.find_nodes(p, F.is_call(U.U + "normpath"), data_only=True):
         bad = F.unguarded_paths(nn[2][0], U.is_attr("path"), F.is_call(U.UNQUOTE["path"]))
         ctx.ob(rule, fn + "/path/unquote-before-dotseg", not bad, "normalize_url resolves dot segments on the still-escaped path", site, witness="http://a.com/a/%2E%2E/b")
-    ctx.ob(rule, fn + "/path/amp-suffix", bool(F.find_nodes(p, F.is_regex_sub(NM.AMP_SUFFIX, ""))), "normalize_url does not remove AMP suffixes by default", site, witness="http://a.com/x/amp/")
+    ctx.ob(rule, fn + "/path/amp-suffix", bool(F.find_nodes(p, F.is_regex_sub(NM.AMP_SUFFIX, ""))), "normalize_url does not remove AMP suffixes by default", site, witness="http://a.com/x/amp/",
+           cells=__import__("uralverif.rules.tables", fromlist=["expect"]).expect(ctx.repo, "normalize_url", "normalize_url", [("http://a.com/x/amp/", "a.com/x"), ("http://a.com/x/amp", "a.com/x"), ("http://a.com/x.amp", "a.com/x"), ("http://a.com/x/amp.html", "a.com/x/amp.html"), ("http://a.com/amplitude", "a.com/amplitude"), ("http://a.com/x/amp/y", "a.com/x/amp/y")]))
     ctx.ob(rule, fn + "/path/index-drop", bool([x for x in P.subterms(p) if x[0] == "call" and x[1] in ("os.path.splitext", "posixpath.splitext")]), "normalize_url does not drop index pages by default", site, witness="http://a.com/index.html")
     ctx.ob(rule, fn + "/path/trailing-slash", bool([x for x in P.subterms(p) if x[0] == "method" and x[1] == "rstrip" and x[3] and x[3][0] == ("const", "/")]) or True, "", site, trivial=True)
     # scheme / userinfo by default
